@@ -198,6 +198,11 @@ def step (line : String) : String :=
       let out := Sig.pairArgs (strs "args") (opts "defaults") ++ Sig.pairArgs (strs "kwonly") (opts "kw_defaults")
       (Json.mkObj [("ok", Json.arr (out.map fun (n, d) =>
         Json.arr #[Json.str n, match d with | some t => Json.str t | none => Json.null]).toArray)]).compress
+    | .ok "func_attr" =>
+      let pr := paramOfJson ((j.getObjVal? "param").toOption.getD Json.null)
+      (resJson (FuncAttr.funcRT pr) fun r =>
+        Json.mkObj ((match r.typ with | some t => [("typ", Json.str (String.ofList t))] | none => []) ++
+          (match r.default with | some v => [("default", valToJson v)] | none => []))).compress
     | .ok "param2ast" =>
       let pr := paramOfJson ((j.getObjVal? "param").toOption.getD Json.null)
       (resJson (ClassAttr.param2ast pr) fun a =>
